@@ -10,7 +10,7 @@ import errno
 import sys
 import warnings
 
-from simkit import core
+from simkit import core, sched
 
 ID = 'C18'
 LEVEL = 'exploration'
@@ -79,6 +79,7 @@ class SimStream:
 
 def setup():
     global P, PP
+    sched.install_lock_seam()      # only used by the non-deciding concurrency observation below
     P, PP = core.import_package()
     import colorful
     colorful.disable()
@@ -303,3 +304,56 @@ def extra_evidence(st):
                 entry_points={k[len('entry_'):]: v for k, v in c.items() if k.startswith('entry_')},
                 setting_domains=DOM,
                 simulated_time='operations applied (field simulated_steps)')
+
+
+# ------------------------------------------------------------------ non-deciding observation
+# C18 quantifies over sequential histories and C20 over concurrent pformat calls only, so a
+# pformat that overlaps a set_default_config in another thread is outside both. The observation
+# below (never a VIOLATION, never changes the exit code) records whether such a call can see a
+# MIX of old and new defaults (it cannot on the pinned tree: the defaults dict is read once and
+# replaced atomically).
+PROBE_RUNS = {'quick': 48, 'thorough': 600}
+
+
+def _probe_one(seed):
+    import warnings as _w
+    _w.simplefilter('ignore')
+    shared, _names = sched.shared_codes()
+    v = [[1, 2, 3], [4, 5, 6], [7, 8, 9]]
+    old = {k: P.get_default_config()[k] for k in KEYS}
+    new = dict(old, depth=1, max_seq_len=2, width=30)
+    s = sched.Scheduler(dict(policy='biased', p=[0.0, 0.01, 0.05][seed % 3], p_shared=[0.3, 0.5][seed % 2],
+                             seed=seed, opcode=True, max_steps=400000), shared, wall_timeout=60)
+    s.spawn([lambda: P.pformat(v)])
+    s.spawn([lambda: P.set_default_config(depth=1, max_seq_len=2, width=30) and None])
+    s.run()
+    if s.aborted:
+        return dict(outcome='aborted:' + s.aborted, switches=s.switches)
+    got = s.threads[0].results[0]['out']
+    if got[0] != 'ok':
+        return dict(outcome='raised:' + got[1], switches=s.switches)
+    t_old = P.pformat(v, **old)
+    t_new = P.pformat(v, **new)
+    return dict(outcome='old' if got[1] == t_old else 'new' if got[1] == t_new else 'mixed',
+                switches=s.switches, text=got[1][:200])
+
+
+def pre_batch(tier):
+    from collections import Counter
+    outcomes = Counter()
+    sample = None
+    for seed in range(PROBE_RUNS[tier]):
+        kind, r = core.in_fork(lambda: _probe_one(seed), 90)
+        if kind != 'ok':
+            outcomes['harness_' + kind] += 1
+            continue
+        outcomes[r['outcome']] += 1
+        if r['outcome'] not in ('old', 'new') and sample is None:
+            sample = r
+    if outcomes.get('mixed'):
+        print('OBSERVATION (non-deciding, outside the quantifier of C18 and C20): a pformat overlapping '
+              'set_default_config in another thread saw a mix of old and new defaults in %d of %d schedules'
+              % (outcomes['mixed'], PROBE_RUNS[tier]))
+    return dict(observations={'pformat_concurrent_with_set_default_config': dict(
+        schedules=PROBE_RUNS[tier], outcomes=dict(outcomes), sample=sample,
+        note='non-deciding: outside the quantifiers of C18 (sequential histories) and C20 (pformat calls only)')})
